@@ -46,7 +46,17 @@ pub fn apply_repl<T: rspack_sources::Source>(r: &mut ReplaceSource<T>, p: &Repl)
 
 pub fn build_concat(how: u8, children: &[Spec]) -> ConcatSource {
   match how {
-    0 => ConcatSource::new(children.iter().map(build).collect::<Vec<BoxSource>>()),
+    // `new` over *typed* ConcatSource items (flattened by `new` itself) when every child is one
+    3 if !children.is_empty() && children.iter().all(|c| matches!(c, Spec::Concat { .. })) => ConcatSource::new(
+      children
+        .iter()
+        .map(|c| match c {
+          Spec::Concat { how, children } => build_concat(*how, children),
+          _ => unreachable!(),
+        })
+        .collect::<Vec<ConcatSource>>(),
+    ),
+    0 | 3 => ConcatSource::new(children.iter().map(build).collect::<Vec<BoxSource>>()),
     _ => {
       let mut c = ConcatSource::default();
       for x in children {
